@@ -971,7 +971,7 @@ def transform_spec(pym, spec, a=1.0, b=1.0, c=0.0, tag=''):
 # of the matrix predicates are classified diagonal / Hermitian whatever they are (known finding K06, C05).
 SCALES_GEN = [(1.0, 1e9), (1e-3, 1e6), (1e-3, 1e2), (2.0 ** -10, 2.0 ** 20), (1e-4, 1.0), (1e3, 1e-3), (1e9, 1.0), (1e6, 1e-3)]
 SCALES_STD = [(1e-4, 1.0), (1e-3, 1.0), (1e3, 1.0), (1e6, 1.0), (1e9, 1.0)]
-TINY = [1e-9, -1e-9, 5e-9, -2e-9, 1e-12, -1e-12, 1e-8, -1e-8, 9.9e-9, 1e-15, -4e-9, 2.5e-9]
+TINY = [1e-9, -1e-9, 5e-9, -2e-9, 1e-12, -1e-12, 1e-8, -1e-8, 9.9e-9, 1e-15, -4e-9, 2.5e-9, 1e-300, -1e-100]
 
 
 def gen_scaled_specs(pym, rec, rng, quick):
@@ -1006,8 +1006,10 @@ def gen_scaled_specs(pym, rec, rng, quick):
                 c = 2.0 * base['kwargs']['sigma'] if j % 2 and base['kwargs']['sigma'] > 0 else 0.0
                 out.append(transform_spec(pym, base, a, 1.0, c, f'-x{a:g}' + ('-neg' if c else '')))
         # (3) order-1 pencils, tiny non-zero shift: the pencil is translated so that the picked shift lands on the tiny value
-        for j, t in enumerate(TINY):
-            base = gen_small_sparse_spec(rec, rng, i, False, force_shift=True, want_gen=bool(j % 2), want_cls=classes[j % len(classes)])
+        # every value on a STANDARD problem (there the module must also make B = identity: compared exactly), every
+        # second one on a generalised problem as well
+        for j, (t, g_) in enumerate([(t, False) for t in TINY] + [(t, True) for t in TINY[::2]]):
+            base = gen_small_sparse_spec(rec, rng, i, False, force_shift=True, want_gen=g_, want_cls=classes[j % len(classes)])
             i += 1
             if base is None or len([o for o in base['ops'] if o['op'] == 'sigma']):
                 continue
@@ -1101,7 +1103,7 @@ def run(ctx):
                 '(1,1e9) (1e-3,1e6) (1e-3,1e2) (2^-10,2^20) (1e-4,1) (1e3,1e-3) (1e9,1) (1e6,1e-3): eigenvalues 1e-9 .. 1e9) and '
                 'standard (1e-4 .. 1e9), the shift scaled alike and non-zero, each once with a positive and once with a negative '
                 'shift (pencil translated by 2 sigma); pencils of order 1 with the tiny shifts +-1e-9, 5e-9, -2e-9, +-1e-12, +-1e-8, '
-                '9.9e-9, 1e-15, -4e-9, 2.5e-9; FE pencils in other units (K ~ 1e-3, M ~ 1e6, ...) with shifts of both signs; dense '
+                '9.9e-9, 1e-15, -4e-9, 2.5e-9, 1e-300, -1e-100 (each on a standard problem, every second one also on a generalised one); FE pencils in other units (K ~ 1e-3, M ~ 1e6, ...) with shifts of both signs; dense '
                 'pencils on other scales; tolerances relative to the scale of the compared quantity.')
     ctx.assumptions += [
         'eigenvalues (and the keys of the sorting function) are well separated in generated cases: ties make argsort and the '
